@@ -846,7 +846,7 @@ def delete_unused_functions_and_classes(
             name_usages[name.id].add(node)
 
     constructors = collections.defaultdict(set)
-    for node in classdefs:
+    for node in core.walk(root, ast.ClassDef):
         for child in filter(parsing.is_magic_method, node.body):
             constructors[node].add(child)
 
@@ -857,6 +857,8 @@ def delete_unused_functions_and_classes(
     for def_node in funcdefs:
         usages = name_usages[def_node.name]
         if parent_class := constructor_classes.get(def_node):
+            if parent_class.name in preserve:
+                continue  # The class is used from elsewhere, and its magic methods with it
             constructor_usages = name_usages[parent_class.name]
         else:
             constructor_usages = set()
